@@ -1,5 +1,7 @@
 #!/bin/bash
 # Offline setup: warm the Go build cache for the checker and /repo.
+# The checker imports packages that exist only through the add-only overlay
+# (/verif/overlay -> /repo), so it must be built the way run.sh builds it.
 export GOFLAGS=-mod=mod GOPROXY=off GOSUMDB=off GOTOOLCHAIN=local
-mkdir -p /verif/.build /verif/evidence
-cd /verif/mc && go1.26 build -o /verif/.build/vcheck ./cmd/vcheck
+mkdir -p /verif/.build /verif/evidence /verif/replays
+exec /verif/run.sh --warm
